@@ -111,6 +111,8 @@ def kf_tree_known(f):
 def run(ctx):
     e = engine(ctx, modules=("contracts.report", "contracts.cli", "contracts.covered"))
     ctx.verify(e, "reuse.covered_files.is_path_ignored", replay=replay_name)
+    ctx.verify(e, "reuse.vcs.VCSStrategyGit.is_submodule")
+    ctx.verify(e, "reuse.vcs.VCSStrategyGit.is_ignored")
     assumed_contracts(ctx, e, "C03")
     ctx.bounded.append(tree_enumeration(ctx.tier))
     ctx.weakest_pre.append("file and directory names free of newline characters ('$' matches before a final newline; '.' does not "
